@@ -25,3 +25,5 @@ mod h_io;
 mod h_setters;
 #[cfg(kani)]
 mod h_builder;
+#[cfg(kani)]
+mod h_big;
